@@ -234,6 +234,48 @@ def gen_tiny(rng, n, reversible):
     return _normalise_rows(C)
 
 
+def gen_wells(rng, k, lazy=None):
+    """two or three wells with internally SYMMETRIC kinetics (entries m/32), consecutive wells joined by one asymmetric
+    link: T[a,b] = r 2^-k, T[b,a] = 2^-k (r in {2, 3, 4}).  Reversible; the stationary weight of a state of well w is the
+    product of the ratios r on the way to it, uniform inside a well - known in closed form.  Every column sums to 1 up to
+    (r-1) 2^-k, so for k >= 34 the matrix is 'numerically doubly stochastic' although its stationary vector is not
+    uniform.  With lazy=j the chain is I + 2^-j (T - I) (use a moderate k then).  All entries exact in binary64.
+    Returns (T, pi, wells) with shuffled labels."""
+    nw = 2 if rng.random() < 0.7 else 3
+    sizes = [int(rng.integers(2, 5)) for _ in range(nw)]
+    n = sum(sizes)
+    starts = np.cumsum([0] + sizes)
+    T = [[F(0)] * n for _ in range(n)]
+    for w in range(nw):
+        idx = list(range(starts[w], starts[w + 1]))
+        for a in idx:
+            for b in idx:
+                if a < b and (rng.random() < 0.8 or b == a + 1):
+                    T[a][b] = T[b][a] = F(int(rng.integers(1, 5)), 32)
+    weight = [F(1)] * n
+    wt = F(1)
+    for w in range(nw - 1):
+        a = int(rng.integers(starts[w], starts[w + 1]))
+        b = int(rng.integers(starts[w + 1], starts[w + 2]))
+        r = int(rng.choice([2, 3, 4]))
+        T[a][b] = F(r, 2 ** k)
+        T[b][a] = F(1, 2 ** k)
+        wt *= r
+        for i in range(starts[w + 1], starts[w + 2]):
+            weight[i] = wt
+    for i in range(n):
+        T[i][i] = 1 - sum(T[i][j] for j in range(n) if j != i)
+    if lazy is not None:
+        e = F(1, 2 ** lazy)
+        T = [[(1 if i == j else 0) + e * (T[i][j] - (1 if i == j else 0)) for j in range(n)] for i in range(n)]
+    perm = [int(x) for x in rng.permutation(n)]
+    T = [[T[perm[i]][perm[j]] for j in range(n)] for i in range(n)]
+    tot = sum(weight)
+    pi = [weight[perm[i]] / tot for i in range(n)]
+    well_of = [int(np.searchsorted(starts, perm[i], side='right') - 1) for i in range(n)]
+    return T, pi, well_of
+
+
 def gen_lazy(rng, n, k):
     """slowly evolving chain T = I + 2^-k (T0 - I), T0 non-symmetric with entries m/16: every entry is exact in binary64
     (k <= 48), the stationary vector is that of T0 and every passage time is 2^k times that of T0.  For k >= 26 all
@@ -1030,6 +1072,14 @@ def make_mfpt_cases(ctx):
         n = int(rng.integers(3, 9))
         k = KS[r % len(KS)]
         add('lazy', t_json(gen_lazy(rng, n, k)), r, LAGS, 'lazy-2^-%d' % k if k >= 26 else 'lazy-k<26')
+    # internally symmetric wells joined by asymmetric tiny links / lazy versions: column sums within 1e-10 of 1 although
+    # the stationary vector is not uniform
+    for r in range(ctx.n(6, 120)):
+        if r % 2:
+            T = gen_wells(rng, int(rng.integers(3, 6)), lazy=int(rng.integers(26, 35)))[0]
+        else:
+            T = gen_wells(rng, 26 + int(rng.integers(0, 9)))[0]
+        add('wells', t_json(T), r, LAGS, 'numerically-doubly-stochastic')
     # symmetric chains with one rate off by a relative 1e-5 .. 1e-9 (exact dyadic perturbation); tolerance 1e-12
     for r in range(ctx.n(12, 240)):
         n = int(rng.integers(3, 9))
